@@ -316,6 +316,15 @@ pub open spec fn t1_merged<K, V>(a: Map<K, Vec<V>>, b: Map<K, Vec<V>>, r: Map<K,
     &&& forall|k: K| !a.contains_key(k) && b.contains_key(k) ==> (#[trigger] r[k])@ == b[k]@
 }
 
+/// loop invariant of the drain loops: `s[..index]` (entries of the drained map f) have been merged into acc, which started as t0
+pub open spec fn t1_drain_inv<K, V>(f: Map<K, Vec<V>>, t0: Map<K, Vec<V>>, s: Seq<(K, Vec<V>)>, index: int, acc: Map<K, Vec<V>>) -> bool {
+    &&& seq_enumerates_map(s, f)
+    &&& forall|key: K| #[trigger] acc.contains_key(key) <==> (t0.contains_key(key) || exists|j: int| 0 <= j < index && (#[trigger] s[j]).0 == key)
+    &&& forall|key: K| t0.contains_key(key) && !(exists|j: int| 0 <= j < index && (#[trigger] s[j]).0 == key) ==> (#[trigger] acc[key])@ == t0[key]@
+    &&& forall|j: int| 0 <= j < index && !t0.contains_key(s[j].0) ==> (#[trigger] acc[s[j].0])@ == s[j].1@
+    &&& forall|j: int| 0 <= j < index && t0.contains_key(s[j].0) ==> cat_either((#[trigger] acc[s[j].0])@, t0[s[j].0]@, s[j].1@)
+}
+
 //@impl ascent internal | impl<K: Eq + Hash, V> RelIndexWrite for RelIndexType1<K, V>
     open spec fn iw_inv(&self) -> bool { obeys_key_model::<K>() }
     open spec fn iw_insert_post(pre: Self, key: K, value: V, post: Self) -> bool {
@@ -333,16 +342,9 @@ pub open spec fn t1_merged<K, V>(a: Map<K, Vec<V>>, b: Map<K, Vec<V>>, r: Map<K,
 //@loop 1
          invariant
             obeys_key_model::<K>(),
-            ({
-               let swapped = old(from)@.len() > old(to)@.len();
-               let f = if swapped { old(to)@ } else { old(from)@ };
-               let t0 = if swapped { old(from)@ } else { old(to)@ };
-               &&& seq_enumerates_map(VERUS_it.seq(), f)
-               &&& forall|key: K| #[trigger] to@.contains_key(key) <==> (t0.contains_key(key) || exists|j: int| 0 <= j < VERUS_it.index() && (#[trigger] VERUS_it.seq()[j]).0 == key)
-               &&& forall|key: K| t0.contains_key(key) && !(exists|j: int| 0 <= j < VERUS_it.index() && (#[trigger] VERUS_it.seq()[j]).0 == key) ==> (#[trigger] to@[key])@ == t0[key]@
-               &&& forall|j: int| 0 <= j < VERUS_it.index() && !t0.contains_key(VERUS_it.seq()[j].0) ==> (#[trigger] to@[VERUS_it.seq()[j].0])@ == VERUS_it.seq()[j].1@
-               &&& forall|j: int| 0 <= j < VERUS_it.index() && t0.contains_key(VERUS_it.seq()[j].0) ==> cat_either((#[trigger] to@[VERUS_it.seq()[j].0])@, t0[VERUS_it.seq()[j].0]@, VERUS_it.seq()[j].1@)
-            }),
+            // the drained map is one of the two arguments and the accumulator started as the other one (whether or not a
+            // size-based swap happened is not part of the contract)
+            t1_drain_inv(old(from)@, old(to)@, VERUS_it.seq(), VERUS_it.index(), to@) || t1_drain_inv(old(to)@, old(from)@, VERUS_it.seq(), VERUS_it.index(), to@),
 //@end
 
 //@impl ascent rel_index_read | impl<'a, K: Eq + std::hash::Hash + 'a, V: Clone + 'a> RelIndexRead<'a> for RelIndexType1<K, V>
@@ -420,6 +422,12 @@ pub open spec fn full_merged<K, V>(a: Map<K, V>, b: Map<K, V>, r: Map<K, V>) -> 
     &&& forall|k: K| #[trigger] r.contains_key(k) ==> (a.contains_key(k) && r[k] == a[k]) || (b.contains_key(k) && r[k] == b[k])
 }
 
+pub open spec fn full_drain_inv<K, V>(f: Map<K, V>, t0: Map<K, V>, s: Seq<(K, V)>, index: int, acc: Map<K, V>) -> bool {
+    &&& seq_enumerates_map(s, f)
+    &&& forall|key: K| #[trigger] acc.contains_key(key) <==> (t0.contains_key(key) || exists|j: int| 0 <= j < index && (#[trigger] s[j]).0 == key)
+    &&& forall|key: K| #[trigger] acc.contains_key(key) ==> (t0.contains_key(key) && acc[key] == t0[key]) || (f.contains_key(key) && acc[key] == f[key])
+}
+
 //@impl ascent internal | impl<K: Eq + Hash, V> RelIndexWrite for HashBrownRelFullIndexType<K, V>
     open spec fn iw_inv(&self) -> bool { obeys_key_model::<K>() }
     open spec fn iw_insert_post(pre: Self, key: K, value: V, post: Self) -> bool { post@ == pre@.insert(key, value) }
@@ -433,14 +441,7 @@ pub open spec fn full_merged<K, V>(a: Map<K, V>, b: Map<K, V>, r: Map<K, V>) -> 
 //@loop 1
          invariant
             obeys_key_model::<K>(),
-            ({
-               let swapped = old(from)@.len() > old(to)@.len();
-               let f = if swapped { old(to)@ } else { old(from)@ };
-               let t0 = if swapped { old(from)@ } else { old(to)@ };
-               &&& seq_enumerates_map(VERUS_it.seq(), f)
-               &&& forall|key: K| #[trigger] to@.contains_key(key) <==> (t0.contains_key(key) || exists|j: int| 0 <= j < VERUS_it.index() && (#[trigger] VERUS_it.seq()[j]).0 == key)
-               &&& forall|key: K| #[trigger] to@.contains_key(key) ==> (t0.contains_key(key) && to@[key] == t0[key]) || (f.contains_key(key) && to@[key] == f[key])
-            }),
+            full_drain_inv(old(from)@, old(to)@, VERUS_it.seq(), VERUS_it.index(), to@) || full_drain_inv(old(to)@, old(from)@, VERUS_it.seq(), VERUS_it.index(), to@),
 //@end
 
 //@impl ascent internal | impl<K: Clone + Hash + Eq, V> RelFullIndexWrite for HashBrownRelFullIndexType<K, V>
